@@ -68,6 +68,8 @@ def history_stream(run, n_cases):
                     name, args, f = O.gen_read_op(rng, shape, csd)
                     if isinstance(f, tuple):
                         f = lambda x: x == x  # noqa: E731
+            except TimeoutError:      # a slow box is an infrastructure problem (exit 2), never a verdict
+                raise
             except Exception:  # noqa: BLE001  (a generator that cannot serve this shape)
                 continue
             steps.append([what, name, str(args)[:200]])
@@ -95,6 +97,8 @@ def history_stream(run, n_cases):
             if what == "read":
                 try:
                     d = O.diff_canon(O.canon(res[0][1]), O.canon(res[1][1]))
+                except TimeoutError:      # a slow box is an infrastructure problem (exit 2), never a verdict
+                    raise
                 except Exception:  # noqa: BLE001
                     d = None
                 if d:
@@ -115,6 +119,8 @@ def history_stream(run, n_cases):
                         d = O.state_diff(ms, rootD, sd)
                         if d:
                             d = "root members vs root dense stack: " + d
+                except TimeoutError:      # a slow box is an infrastructure problem (exit 2), never a verdict
+                    raise
                 except Exception as e:  # noqa: BLE001
                     run.count("history.compare_raises", type(e).__name__)
                     alive = False
